@@ -178,6 +178,32 @@ pub fn choice(kind: &str, ca: &str, extra: Value) -> (usize, String) {
 	.unwrap_or((0, "ok".into()))
 }
 
+/// Bind a loopback listener on a port *outside* the kernel's ephemeral range (32768..60999 here):
+/// after a run with hundreds of thousands of short connections the ephemeral range can be full of
+/// TIME_WAIT residue and `bind(0)` fails with EADDRINUSE.  Ports 10000..19999 are scanned from a
+/// per-process rotating start; port 0 with retries is the fallback.
+pub fn bind_local() -> std::net::TcpListener {
+	use std::sync::atomic::{AtomicU32, Ordering};
+	static NEXT: AtomicU32 = AtomicU32::new(0);
+	let base = (std::process::id().wrapping_mul(2654435761) >> 7) % 10000;
+	for _ in 0..10000 {
+		let k = NEXT.fetch_add(1, Ordering::Relaxed);
+		let port = 10000 + ((base + k) % 10000) as u16;
+		if let Ok(l) = std::net::TcpListener::bind(("127.0.0.1", port)) {
+			return l;
+		}
+	}
+	let mut last = None;
+	for _ in 0..300 {
+		match std::net::TcpListener::bind("127.0.0.1:0") {
+			Ok(l) => return l,
+			Err(e) => last = Some(e),
+		}
+		std::thread::sleep(std::time::Duration::from_millis(200));
+	}
+	panic!("machinery: cannot bind a loopback listener: {last:?}");
+}
+
 // ---- hooks called from /repo (feature-gated) ------------------------------------------------
 
 pub fn on_admit(rl: &crate::endpoint::RateLimit) {
